@@ -34,6 +34,11 @@ def run(repo: Repo, chk: Check):
     chk.guarded(r06g, repo, chk)
     chk.guarded(r06h, repo, chk)
     chk.guarded(r06k, repo, chk)
+    chk.rule("R06.l", "a function's end label, the target of its early returns, is followed by an instruction that cannot fall through also when the "
+                      "final 'j ra' is replaced by a tail call: otherwise an early return runs into the next function and never returns to the call site "
+                      "(shared with R07.c)", floor=2)
+    from .c07 import r07c
+    chk.guarded(r07c, repo, chk, "R06.l")
 
 
 def _addr(site):
